@@ -33,6 +33,14 @@ class XCircuitFrame:
     def inv_1(self, circuit, new_circuit, _k):
         return True
 
+    def ensures_header(self, circuit, result):
+        return (forall_keys(circuit._constants, lambda k: has_key(result._constants, k) and same(dict_lookup(result._constants, k), dict_lookup(circuit._constants, k)))
+                and forall_keys(circuit._registers, lambda k: has_key(result._registers, k) and same(dict_lookup(result._registers, k), dict_lookup(circuit._registers, k))))
+
+    def ensures_usepulses(self, circuit, result):
+        return (len(result._usepulses) == len(circuit._usepulses)
+                and forall_range(len(circuit._usepulses), lambda k: same(result._usepulses[k], circuit._usepulses[k])))
+
     raises_only = ("JaqalError",)
 
 
@@ -45,6 +53,18 @@ class MCircuitFrame:
 
     def ensures(self, circuit, result):
         return type_is(result, Circuit) and implies(len(circuit._native_gates) > 0, same(result._native_gates, circuit._native_gates))
+
+    def ensures_header(self, circuit, result):
+        return (forall_keys(circuit._constants, lambda k: has_key(result._constants, k) and same(dict_lookup(result._constants, k), dict_lookup(circuit._constants, k)))
+                and forall_keys(circuit._registers, lambda k: has_key(result._registers, k) and same(dict_lookup(result._registers, k), dict_lookup(circuit._registers, k))))
+
+    def ensures_usepulses(self, circuit, result):
+        return (len(result._usepulses) == len(circuit._usepulses)
+                and forall_range(len(circuit._usepulses), lambda k: same(result._usepulses[k], circuit._usepulses[k])))
+
+    def ensures_macros_kept(self, circuit, result):
+        return implies(self.preserve_definitions == True,
+                       forall_keys(circuit._macros, lambda k: has_key(result._macros, k) and same(dict_lookup(result._macros, k), dict_lookup(circuit._macros, k))))
 
     raises_only = ("JaqalError",)
 
